@@ -853,6 +853,16 @@ fn dumb_complex_div_floor(a: Complex64, b: Complex64) -> Complex64 {
     Complex64::new(c.re.floor(), c.im.floor())
 }
 
+// flooring remainders, paired with the flooring quotients above so that
+// (a // b) * b + (a %% b) == a
+fn dumb_rational_mod_floor(a: &BigRational, b: &BigRational) -> BigRational {
+    a - b * dumb_rational_div_floor(a, b)
+}
+
+fn dumb_complex_mod_floor(a: Complex64, b: Complex64) -> Complex64 {
+    a - b * dumb_complex_div_floor(a, b)
+}
+
 // hmmm... https://github.com/rust-num/num-bigint/issues/146
 impl NNum {
     pub fn div_floor(&self, other: &NNum) -> NNum {
@@ -870,9 +880,9 @@ impl NNum {
             self,
             other,
             NInt::mod_floor,
-            Rem::rem,
+            dumb_rational_mod_floor,
             f64::rem_euclid,
-            Rem::rem
+            dumb_complex_mod_floor
         )
     }
 }
